@@ -83,6 +83,20 @@ CLAIMS = {
              "the property's N range: with force-full-r, cap_n = 1240005543 wraps the seed to 0 (PRBS fixed point) and "
              "get_parity_matrix_row never returns (fullr_diverges_seed_zero).",
         design_ref="DESIGN.md section 6 (C10)"),
+    "C16": dict(
+        text="Proved in Lean for every write size W in {1,2,4,8,16,32}, read size R | W, W-aligned range, any block "
+             "length / bit-array width and any set of distinct indices stored in any order on an erased range: "
+             "data/parity/matrix round trip and frame (other indices unchanged), contiguous data layout, order "
+             "independence (any two programs commute), every program aligned to and a multiple of W and every read of R, "
+             "all accesses inside the configured range, no program needs a 0->1 transition, num_rows fits the range and "
+             "is <= 8N, closed form of the row addresses; plus a decide-witness for the tail-read defect of the pinned "
+             "parity adapter (repaired in /repo). The three real adapters run on a simulated NorFlash device and are "
+             "compared with the model on returned bytes and the complete access log (all 21 (W,R) pairs, lengths 1..64, "
+             "all permutations of up to 4 (quick) / 5 (thorough) indices).",
+        note="Trusted: Lean kernel, the in-memory NorFlash device of the harness, NOR AND-programming. Addresses below "
+             "2^32 (the `as u32` casts are not modelled). Outside the property: FlashDataStorage::get panics for block "
+             "lengths below W; indices at or above the capacity are the caller's contract.",
+        design_ref="DESIGN.md section 6 (C16)"),
 }
 
 _TODO = "check not built yet in this session (planned in DESIGN.md section 6); not believed to be outside the technique"
